@@ -1,9 +1,12 @@
 package rules
 
 import (
+	"fmt"
+	"go/constant"
 	"go/token"
 	"go/types"
 	"reflect"
+	"sort"
 	"strings"
 
 	"golang.org/x/tools/go/ssa"
@@ -122,8 +125,24 @@ func ruleDiskFormula(r *core.Reporter) {
 	var leaves []ssa.Value
 	phiLeaves(T, map[ssa.Value]bool{}, &leaves)
 	var opLeaf, scaledLeaf, constLeaf ssa.Value
+	viaMin := false
+	want := 3
 	for _, l := range leaves {
 		switch x := l.(type) {
+		case *ssa.Call:
+			// min(scaled, flat): for total ≤ 256 GiB the ratio is ≤ 1 and the minimum is the scaled value,
+			// above it the ratio is ≥ 1 and the minimum is the flat 50 GiB — the same piecewise function
+			if (ir.IsCallTo(x, "math.Min") || ir.CallName(x.Common()) == "builtin.min") && len(x.Call.Args) == 2 {
+				for _, a := range x.Call.Args {
+					a = ir.Strip(a)
+					if _, isC := a.(*ssa.Const); isC {
+						constLeaf = a
+					} else if dependsOn(a, total, map[ssa.Value]bool{}) {
+						scaledLeaf = a
+					}
+				}
+				viaMin, want = true, 2
+			}
 		case *ssa.BinOp:
 			if x.Op == token.MUL && dependsOn(x, minSpace, map[ssa.Value]bool{}) {
 				opLeaf = x
@@ -189,7 +208,7 @@ func ruleDiskFormula(r *core.Reporter) {
 				}
 			}
 		}
-		if okB {
+		if okB && !viaMin {
 			if in, isIn := scaledLeaf.(ssa.Instruction); isIn {
 				_, g := ir.GuardedBy(fn, ir.Entry(fn), in, true, func(a ir.Atom) bool {
 					if a.V != nil || a.Op != token.LEQ {
@@ -213,8 +232,8 @@ func ruleDiskFormula(r *core.Reporter) {
 	} else {
 		r.Violated("checkThreshold/flat-default", fnPos(p, fn), "the default threshold for volumes above 256 GiB is not 50 GiB")
 	}
-	if len(leaves) != 3 {
-		r.Violated("checkThreshold/cases", fnPos(p, fn), "the threshold has %d defining cases, expected 3", len(leaves))
+	if len(leaves) != want {
+		r.Violated("checkThreshold/cases", fnPos(p, fn), "the threshold has %d defining cases, expected %d", len(leaves), want)
 	}
 }
 
@@ -287,126 +306,151 @@ func ruleDiskUse(r *core.Reporter) {
 			r.Held("startPipeline/disk-check", 1, "every Start is behind CheckDiskUsage()==nil")
 		}
 	}
-	// watcher
-	var tick *ssa.Call
-	var pauseCall, resumeCall ssa.Instruction
+	// watcher: the ticker arm is evaluated exhaustively over (disk check result, paused flag)
+	ruleDiskWatcherTable(r, wd, cdu)
+}
+
+// ruleDiskWatcherTable interprets the ticker arm of WatchDiskSpace (helpers of the package inlined) for every
+// combination of {check failed, check passed} × {not paused, paused} and compares the calls made and the new flag
+// value with the specification table. Exhaustive over a finite domain: no sampling.
+func ruleDiskWatcherTable(r *core.Reporter, wd, cdu *ssa.Function) {
+	p := r.P
+	var arm *ir.SelectArm
+	var selBlock *ssa.BasicBlock
+	for _, si := range ir.Selects(wd) {
+		for k := range si.Arms {
+			a := &si.Arms[k]
+			if a.State != nil && a.State.Dir == types.RecvOnly && isTickerField(a.State.Chan) {
+				arm, selBlock = a, si.Sel.Block()
+			}
+		}
+	}
+	if arm == nil || arm.Body == nil {
+		r.Violated("WatchDiskSpace/tick", fnPos(p, wd), "the disk watcher has no periodic (ticker) arm")
+		return
+	}
+	// inputs: every call of CheckDiskUsage in the package's closure, every bool phi of the watcher
+	var checks []ssa.Value
+	for _, f := range p.FuncsInPkg(rel(pkgWatch)) {
+		for _, ff := range withAnon(f) {
+			if ff == cdu {
+				continue
+			}
+			allInstrs(ff, func(in ssa.Instruction) {
+				if c, ok := in.(*ssa.Call); ok && ir.CalleeOf(c.Common()) == cdu {
+					checks = append(checks, c)
+				}
+			})
+		}
+	}
+	var flags []*ssa.Phi
 	allInstrs(wd, func(in ssa.Instruction) {
-		if c, ok := in.(*ssa.Call); ok {
-			if ir.CalleeOf(c.Common()) == cdu {
-				tick = c
-			}
-			if ir.IsCallTo(c, pkgPause+".Pause") {
-				pauseCall = c
-			}
-			if ir.IsCallTo(c, pkgPause+".Resume") {
-				resumeCall = c
+		if ph, ok := in.(*ssa.Phi); ok {
+			if b, isB := ph.Type().Underlying().(*types.Basic); isB && b.Kind() == types.Bool {
+				flags = append(flags, ph)
 			}
 		}
 	})
-	if tick == nil || pauseCall == nil || resumeCall == nil {
-		r.Violated("WatchDiskSpace/calls", fnPos(p, wd), "the disk watcher no longer checks the disk and pauses/resumes (check=%v pause=%v resume=%v)", tick != nil, pauseCall != nil, resumeCall != nil)
+	if len(checks) == 0 || len(flags) == 0 {
+		r.Violated("WatchDiskSpace/tick", fnPos(p, wd), "the disk watcher no longer checks the disk on each tick or keeps no paused state (checks=%d, bool state variables=%d)", len(checks), len(flags))
 		return
 	}
-	errNil := func(a ir.Atom) bool {
-		return a.V == nil && a.Op == token.EQL && ((a.X == ssa.Value(tick) && ir.IsNilConst(a.Y)) || (a.Y == ssa.Value(tick) && ir.IsNilConst(a.X)))
-	}
-	// the paused flag: a bool phi in the loop header
-	isFlag := func(a ir.Atom) (*ssa.Phi, bool) {
-		ph, ok := a.V.(*ssa.Phi)
-		if !ok {
-			return nil, false
+	effect := func(c ssa.CallInstruction) string {
+		switch {
+		case ir.IsCallTo(c, pkgPause+".Pause"):
+			return "Pause"
+		case ir.IsCallTo(c, pkgPause+".Resume"):
+			return "Resume"
 		}
-		b, isB := ph.Type().Underlying().(interface{ Kind() int })
-		_ = b
-		_ = isB
-		return ph, ph.Comment == "paused" || true
+		return ""
 	}
-	var flag *ssa.Phi
-	// identify the flag as the bool phi that guards both Pause (false) and Resume (true)
-	for _, ii := range ir.Ifs(wd) {
-		ph, ok := isFlag(ii.Atom)
-		if !ok {
-			continue
+	flagBlocks := map[*ssa.BasicBlock]bool{selBlock: true}
+	for _, f := range flags {
+		flagBlocks[f.Block()] = true
+	}
+	type row struct {
+		errNil, paused bool
+		want           []string
+		wantFlag       bool
+		mayReturn      bool
+		what           string
+	}
+	rows := []row{
+		{false, false, []string{"Pause"}, true, false, "low disk, not paused by the watcher"},
+		{false, true, nil, true, false, "low disk, already paused by the watcher"},
+		{true, false, nil, false, false, "disk fine, not paused"},
+		{true, true, []string{"Resume"}, false, true, "disk fine again, paused by the watcher"},
+	}
+	// try each bool phi as the paused flag; all others are universally quantified
+	var lastProblems []string
+	for _, flag := range flags {
+		var problems []string
+		var others []*ssa.Phi
+		for _, f := range flags {
+			if f != flag {
+				others = append(others, f)
+			}
 		}
-		if ir.OnlyVia(ir.Entry(wd), pauseCall, ii.If.Block(), ii.EdgeWhen(false)) {
-			flag = ph
-		}
-	}
-	flagAtom := func(a ir.Atom) bool { return flag != nil && a.V == ssa.Value(flag) }
-	_, p1 := ir.GuardedBy(wd, ir.Entry(wd), pauseCall, false, errNil)
-	_, p2 := ir.GuardedBy(wd, ir.Entry(wd), pauseCall, false, flagAtom)
-	_, r1 := ir.GuardedBy(wd, ir.Entry(wd), resumeCall, true, errNil)
-	_, r2 := ir.GuardedBy(wd, ir.Entry(wd), resumeCall, true, flagAtom)
-	if p1 && p2 {
-		r.Held("WatchDiskSpace/pause-only-when", 1, "Pause only on err != nil && !paused")
-	} else {
-		r.Violated("WatchDiskSpace/pause-only-when", p.InstrPos(pauseCall), "the watcher can pause without (low disk ∧ not already paused by it) (err guard=%v, flag guard=%v)", p1, p2)
-	}
-	if r1 && r2 {
-		r.Held("WatchDiskSpace/resume-only-when", 1, "Resume only on err == nil && paused")
-	} else {
-		r.Violated("WatchDiskSpace/resume-only-when", p.InstrPos(resumeCall), "the watcher can resume without (disk ok ∧ paused by it) (err guard=%v, flag guard=%v)", r1, r2)
-	}
-	// conversely: on (err != nil ∧ !paused) Pause is always reached before the next tick, and the flag becomes true;
-	// on (err == nil ∧ paused) Resume is always reached and the flag becomes false.
-	if flag == nil {
-		r.Undecided("WatchDiskSpace/flag", fnPos(p, wd), "paused flag not identified")
-		return
-	}
-	hdr := flag.Block()
-	hf := hdr.Instrs[0]
-	check := func(call ssa.Instruction, wantErrNil, wantFlag bool, name string, newFlag string) {
-		// start points: edges where both conditions are established: find the If on the flag that is guarded by the err condition (or vice versa)
-		var starts []ir.Pt
-		for _, ii := range ir.Ifs(wd) {
-			if flagAtom(ii.Atom) {
-				if _, g := ir.GuardedBy(wd, ir.After(tick), ii.If, wantErrNil, errNil); g {
-					starts = append(starts, ir.Pt{B: ii.If.Block().Succs[ii.EdgeWhen(wantFlag)], I: 0})
+		for _, rw := range rows {
+			for mask := 0; mask < 1<<len(others); mask++ {
+				env := map[ssa.Value]ir.AVal{flag: ir.ABool(rw.paused)}
+				for _, c := range checks {
+					env[c] = ir.ANil(rw.errNil)
+				}
+				for k, of := range others {
+					env[of] = ir.ABool(mask&(1<<k) != 0)
+				}
+				res := ir.AbsRun(ir.Pt{B: arm.Body, I: 0}, ir.AbsOpts{
+					Env:    env,
+					Effect: effect,
+					StopAt: func(from, to *ssa.BasicBlock) bool { return flagBlocks[to] },
+					Inline: func(f *ssa.Function) bool { return f != cdu && f.Pkg != nil && f.Pkg.Pkg.Path() == pkgWatch },
+				})
+				if !res.OK {
+					at := ""
+					if res.At != nil {
+						at = " at " + p.InstrPos(res.At)
+					}
+					problems = append(problems, fmt.Sprintf("undecided:%s: whether the watcher pauses/resumes depends on more than (disk check result, its paused flag)%s [%s]", rw.what, at, res.Why))
+					continue
+				}
+				if strings.Join(res.Effects, ",") != strings.Join(rw.want, ",") {
+					problems = append(problems, fmt.Sprintf("%s: the watcher calls [%s], expected [%s]", rw.what, strings.Join(res.Effects, ","), strings.Join(rw.want, ",")))
+					continue
+				}
+				if res.Returned {
+					if !rw.mayReturn {
+						problems = append(problems, fmt.Sprintf("%s: the watcher goroutine returns", rw.what))
+					}
+					continue
+				}
+				nf := res.PhiIn(flag)
+				if flag.Block() != res.To {
+					nf = res.Vals[flag]
+				}
+				if nf.C == nil || constant.BoolVal(nf.C) != rw.wantFlag {
+					problems = append(problems, fmt.Sprintf("%s: afterwards the watcher's paused state is not %v — the next low-disk (or recovery) episode is mishandled", rw.what, rw.wantFlag))
 				}
 			}
-			if errNil(ii.Atom) {
-				if _, g := ir.GuardedBy(wd, ir.After(tick), ii.If, wantFlag, flagAtom); g {
-					starts = append(starts, ir.Pt{B: ii.If.Block().Succs[ii.EdgeWhen(wantErrNil)], I: 0})
-				}
-			}
 		}
-		if len(starts) == 0 {
-			r.Undecided("WatchDiskSpace/"+name+"-always", p.InstrPos(call), "cannot find the branch that establishes the %s condition", name)
+		if len(problems) == 0 {
+			r.Held("WatchDiskSpace/table", 4, "for all (check result, paused): Pause exactly on (low, ¬paused) → paused; Resume exactly on (ok, paused) → ¬paused; otherwise no call and state kept (ticker arm interpreted with package helpers inlined, %d other state bits quantified)", len(others))
 			return
 		}
-		res := ir.Reach(starts, ir.Opts{Stop: func(in ssa.Instruction) bool { return in == call || in == hf }})
-		if res.Stopped[hf] {
-			r.Violated("WatchDiskSpace/"+name+"-always", p.InstrPos(call), "the %s condition holds but a path goes back to waiting without calling pause.%s (an extra condition or early continue skips it)", name, strings.Title(name))
-			return
-		}
-		for in := range res.Reached {
-			if _, isRet := in.(*ssa.Return); isRet {
-				r.Violated("WatchDiskSpace/"+name+"-always", p.InstrPos(in), "the watcher returns instead of calling pause.%s", strings.Title(name))
-				return
-			}
-		}
-		// flag update: along back edges reachable after the call, the phi's incoming value is the constant newFlag
-		back := ir.Reach([]ir.Pt{ir.After(call)}, ir.Opts{Stop: func(in ssa.Instruction) bool { return in == hf }})
-		okFlag := true
-		any := false
-		for i, pred := range hdr.Preds {
-			if len(pred.Instrs) == 0 || !back.Reached[pred.Instrs[len(pred.Instrs)-1]] {
-				continue
-			}
-			any = true
-			c, isC := flag.Edges[i].(*ssa.Const)
-			if !isC || c.Value == nil || c.Value.ExactString() != newFlag {
-				okFlag = false
-			}
-		}
-		if any && okFlag {
-			r.Held("WatchDiskSpace/"+name+"-always", 1, "on its condition pause.%s is always called and the watcher's flag becomes %s", strings.Title(name), newFlag)
-		} else {
-			r.Violated("WatchDiskSpace/"+name+"-always", p.InstrPos(call), "after pause.%s the watcher's own `paused` flag is not set to %s on every path: the next low-disk (or recovery) episode is ignored", strings.Title(name), newFlag)
+		lastProblems = problems
+	}
+	sort.Strings(lastProblems)
+	und := true
+	for _, pr := range lastProblems {
+		if !strings.HasPrefix(pr, "undecided:") {
+			und = false
 		}
 	}
-	check(pauseCall, false, false, "pause", "true")
-	check(resumeCall, true, true, "resume", "false")
+	if und {
+		r.Undecided("WatchDiskSpace/table", fnPos(p, wd), "%s", strings.Join(lastProblems, "; "))
+	} else {
+		r.Violated("WatchDiskSpace/table", fnPos(p, wd), "%s", strings.Join(lastProblems, "; "))
+	}
 }
 
 // registeredFlags: names given to (*pflag.FlagSet) definers anywhere in the module, with the definer name (Float64, Int, …).
